@@ -10,6 +10,9 @@ from .terms import T, const, sym, call, mk, is_const, cval
 from .values import (AV, Val, Arr, Frame, Rot, Seq, DictV, SliceV, Obj, Func, ClassRef, Ref, Method, Indexer, Unk,
                      Space, K, pyval, is_pyconst, to_term, NotConst, Unsupported)
 
+from . import imgdom
+from .imgdom import Spectrum, Filtered
+
 ROT = "scipy.spatial.transform.Rotation"
 
 BINOPS = {ast.Add: "add", ast.Sub: "sub", ast.Mult: "mul", ast.Div: "div", ast.FloorDiv: "floordiv", ast.Mod: "mod",
@@ -63,7 +66,10 @@ def unop(it, op, v, node):
 
 def map1(f, v):
     if isinstance(v, Val):
-        return Val(f(v.term), space=v.space, series=v.series)
+        r = Val(f(v.term), space=v.space, series=v.series)
+        if getattr(v, "axes", None) is not None:
+            r.axes = v.axes
+        return r
     if isinstance(v, Arr):
         a = Arr([f(c) for c in v.cols], v.ndim, v.space, v.single_row)
         return a
@@ -114,6 +120,12 @@ def arith(it, opn, a, b, node):
                 return from_py(r)
         except Exception:  # noqa
             pass
+    if isinstance(a, Spectrum) or isinstance(b, Spectrum):
+        if opn == "mul":
+            return imgdom.multiply(it, a, b, node)
+        raise Unsupported(f"operation {opn} on a spectrum", node)
+    if isinstance(a, Filtered) or isinstance(b, Filtered):
+        return Unk(mk(opn, to_term(a), to_term(b)))
     if isinstance(a, Rot) or isinstance(b, Rot):
         if opn == "mul" and isinstance(a, Rot) and isinstance(b, Rot):
             return Rot(mk("matmul", a.term, b.term), space=_space(a, b))
@@ -158,8 +170,12 @@ def arith(it, opn, a, b, node):
         return Arr([mk(opn, ta, y) for y in ab.cols], ab.ndim, _space(ab, a), ab.single_row)
     if isinstance(a, (Val, Unk)) and isinstance(b, (Val, Unk)):
         t = mk(opn, a.term, b.term)
-        if isinstance(a, Val) and isinstance(b, Val):
-            return Val(t, space=_space(a, b), series=getattr(a, "series", False) or getattr(b, "series", False))
+        axes = imgdom.bcast_axes(getattr(a, "axes", None), getattr(b, "axes", None))
+        if isinstance(a, Val) and isinstance(b, Val) or axes is not None:
+            r = Val(t, space=_space(a, b), series=getattr(a, "series", False) or getattr(b, "series", False))
+            if axes is not None:
+                r.axes = axes
+            return r
         return Unk(t, space=_space(a, b))
     return Unk(mk(opn, to_term(a), to_term(b)), space=_space(a, b))
 
@@ -389,6 +405,12 @@ def getattr_(it, base, attr, node, fr):
             return base
         m = Method(base, attr)
         return m
+    if isinstance(base, Filtered):
+        if attr == "real":
+            return Filtered(base.src, base.gain, base.axes, base.transformed, real=True)
+        return Method(base, attr)
+    if isinstance(base, Spectrum):
+        return Method(base, attr)
     if isinstance(base, Func):
         return Unk(call("funcattr", const(base.qual), const(attr)))
     if isinstance(base, Indexer):
@@ -541,6 +563,9 @@ def getitem(it, base, idx, node, fr):
             u.axis = pyval(idx)
             return u
         r = Unk(call("getitem", base.term, to_term(idx)), space=base.space)
+        if getattr(base, "rank", None) is not None:
+            items_ = idx.items if isinstance(idx, Seq) and idx.kind == "tuple" else [idx]
+            r.rank = base.rank - sum(1 for x_ in items_ if not isinstance(x_, SliceV))
         it.record("index", "getitem", [base, idx], {}, node, {"result": r})
         if is_mask(idx) or isinstance(idx, SliceV):
             pass
@@ -548,7 +573,11 @@ def getitem(it, base, idx, node, fr):
             r.space = None
         return r
     if isinstance(base, Ref):
+        if base.name in ("numpy.mgrid", "numpy.ogrid"):
+            return imgdom.mgrid(it, base.name, idx, node)
         return Ref(base.name + "[]")
+    if isinstance(base, (Spectrum, Filtered)):
+        raise Unsupported("indexing a spectrum / filtered array", node)
     if isinstance(base, Rot):
         r = Rot(base.term, space=index_space(it, base, idx, node))
         r.indexed_by = idx
@@ -573,7 +602,8 @@ def val_getitem(it, v, idx, node):
     """indexing a 1-D element-wise value"""
     if isinstance(idx, Seq) and idx.kind == "tuple" and all(
             (isinstance(x, SliceV) and x.is_full()) or (is_pyconst(x) and pyval(x) is None) for x in idx.items):
-        return v  # v[:, np.newaxis] and friends: same element-wise value
+        r = imgdom.newaxis_index(v, idx)
+        return r if r is not None else v  # v[:, np.newaxis] and friends: same element-wise value
     if isinstance(idx, SliceV):
         if idx.is_full():
             return v
@@ -925,22 +955,33 @@ def setitem(it, obj, idx, value, node, fr):
         # masked / positional store into an element-wise value held in a variable: rewrite the variable
         it.record("store", "elementwise", [obj, idx, value], {}, node)
         tgt = node.targets[0] if isinstance(node, ast.Assign) else getattr(node, "target", None)
+        if isinstance(tgt, ast.Subscript) and isinstance(tgt.value, ast.Name) and isinstance(obj, Val):
+            nv = imgdom.index_store(it, obj, idx, value, node)
+            if nv is not None:
+                fr.env[tgt.value.id] = nv
+                return
         if isinstance(tgt, ast.Subscript) and isinstance(tgt.value, ast.Name):
             name = tgt.value.id
             if isinstance(idx, Seq) and len(idx.items) == 1 and getattr(idx.items[0], "mask", None) is not None:
                 idx = idx.items[0].mask  # x[np.where(mask)] = v  ==  x[mask] = v
             elif getattr(idx, "mask", None) is not None and getattr(idx, "pos_of", None) is not None:
                 idx = idx.mask
+            if isinstance(idx, Seq) and idx.kind == "tuple" and idx.items and all(isinstance(x, SliceV) and x.is_full() for x in idx.items):
+                idx = idx.items[0]
             if isinstance(idx, SliceV) and idx.is_full():
                 new = Val(to_term(value), space=obj.space)
+                if getattr(value, "axes", None) is not None:
+                    new.axes = value.axes
             elif getattr(idx, "scalar_pos", False) or is_pyconst(idx) or getattr(idx, "is_scalar_index", False):
                 new = Val(call("setelem", obj.term, to_term(idx), to_term(value)), space=obj.space)
                 new.before_store = obj
             else:
                 new = Val(mk("ite", to_term(idx), to_term(value), obj.term), space=obj.space)
-            for a in ("pos_of",):
+            for a in ("pos_of", "axes"):
                 if getattr(obj, a, None) is not None:
                     setattr(new, a, getattr(obj, a))
+            if getattr(value, "axes", None) is not None and getattr(new, "axes", None) is None:
+                new.axes = value.axes
             fr.env[name] = new
         return
     if isinstance(obj, Obj):
@@ -1022,7 +1063,7 @@ def generic_element(it, iterable, node):
         if getattr(iterable, "iter_kind", None) == "zip":
             return Seq([generic_element(it, x, node) for x in iterable.inners], "tuple")
         if getattr(iterable, "iter_kind", None) == "range":
-            i = Val(call("range_index", *[to_term(a) for a in iterable.range_args]))
+            i = Val(sym(f"ri@{getattr(node, 'lineno', 0)}:{getattr(node, 'col_offset', 0)}"))
             i.is_scalar_index = True
             i.scalar_pos = True
             i.range_args = iterable.range_args
